@@ -92,3 +92,19 @@ Theorem c03_scan_magic_offsets_is_source :
     roots_end_len = 24%Z.
 Proof. exact Decisions.scan_magic_offsets. Qed.
 Print Assumptions c03_scan_magic_offsets_is_source.
+
+(* the root record is the single commit point: written last, for the pinned versions, size moved after the write *)
+Theorem c03_flush_always_writes_roots_is_source :
+  conds 400 (body "Store.Flush") = [GVar "s.readOnly"; GBin "==" (GVar "s.file") GNil; GBin "!=" (GVar "err") GNil] /\
+  last (body "Store.Flush") (SOther "") = SReturn [GCall "s.writeRoots" [GVar "rnls"]] /\
+  hd (SOther "") (body "Store.writeRoots") = SAssign [GVar "sJSON"; GVar "err"] ":=" [GCall "json.Marshal" [GVar "rnls"]] /\
+  before "c.rootAddRef" "coll[name].write" (call_list "Store.Flush") = true /\
+  before "coll[name].write" "s.writeRoots" (call_list "Store.Flush") = true.
+Proof. exact Decisions.flush_always_writes_roots. Qed.
+Print Assumptions c03_flush_always_writes_roots_is_source.
+
+Theorem c03_write_roots_order_is_source :
+  Forall (fun c => c = GBin "!=" (GVar "err") GNil) (conds 400 (body "Store.writeRoots")) /\
+  before "s.file.WriteAt" "atomic.StoreInt64" (call_list "Store.writeRoots") = true.
+Proof. exact Decisions.write_roots_order. Qed.
+Print Assumptions c03_write_roots_order_is_source.
